@@ -4,8 +4,8 @@
 
 JOBS = [
     # ---- playback/tape_recorder.py: decorator wrappers and play
-    dict(job=('specs.tr_units', 'w_in_playback', {}), props=['C01', 'C02', 'C09'], cases='w_in'),
-    dict(job=('specs.tr_units', 'w_in_recording', {}), props=['C01', 'C02', 'C03', 'C04', 'C05', 'C09'], cases='w_in'),
+    dict(job=('specs.tr_units', 'w_in_playback', {}), props=['C01', 'C02', 'C09', 'C06', 'C11', 'C20'], cases='w_in'),
+    dict(job=('specs.tr_units', 'w_in_recording', {}), props=['C01', 'C02', 'C03', 'C04', 'C05', 'C09', 'C11', 'C20'], cases='w_in'),
     dict(job=('specs.tr_units', 'w_out', {'mode': 'playback'}), props=['C01', 'C02', 'C03', 'C09'], cases='w_out'),
     dict(job=('specs.tr_units', 'w_out', {'mode': 'recording'}), props=['C01', 'C02', 'C03', 'C04', 'C05', 'C09'], cases='w_out'),
     dict(job=('specs.tr_units', 'w_op_recording', {}), props=['C03', 'C04', 'C05', 'C09', 'C17', 'C18'], cases='w_op'),
@@ -150,7 +150,14 @@ def extra_for(prop, tier, seed):
     return out
 
 
-BOUNDED = {'specs.studio.grouping': 'replay/bounded/c19_grouping.py'}
+BOUNDED = {'specs.studio.grouping': 'replay/bounded/c19_grouping.py',
+           # S3 lookup: real cassette + facade over the fake bucket, windows around midnights, repeated lookups on one cassette object
+           'specs.s3.s3_id_prefixes': 'replay/bounded/c16_s3_lookup.py', 'specs.s3.facade_iter_keys': 'replay/bounded/c16_s3_lookup.py',
+           'specs.s3.s3_iter_recording_ids': 'replay/bounded/c16_s3_lookup.py', 'specs.s3.s3_prefix_iterators': 'replay/bounded/c16_s3_lookup.py',
+           # file interception: real handlers, real files, sizes around chunk / limit boundaries
+           'specs.files.intercept_file': 'replay/bounded/c20_files.py', 'specs.files.roundtrip': 'replay/bounded/c20_files.py',
+           'specs.files.restore_input': 'replay/bounded/c20_files.py', 'specs.files.restore_output': 'replay/bounded/c20_files.py',
+           'specs.files.prepare_handlers': 'replay/bounded/c20_files.py'}
 
 
 def bounded_for(jobname):
